@@ -286,3 +286,48 @@ def def_types(an: Analysis, fn: FunctionInfo, name: ast.Name, node: Node):
             return ANY
         out |= set(t)
     return frozenset(out) if out else ANY
+
+
+def guard_atoms(an: Analysis, fn: FunctionInfo, target: Node, avoid=None) -> List[Tuple[ast.expr, bool, Node]]:
+    """What is known to hold at *target*, as (expression, truth, test node) atoms: the dominating test outcomes with local
+    boolean flags replaced by what they were computed from (`trusted = is_proxy and self._ok(x)` ... `if trusted:`), conjunctions
+    known true / disjunctions known false split into their parts, negations pushed down.  A flag is only expanded when it has
+    a single live definition and nothing it mentions was re-bound in between."""
+    rd = reaching_defs(fn)
+    out: List[Tuple[ast.expr, bool, Node]] = []
+
+    def flag_def(name: ast.Name, at: Node):
+        defs = rd.reaching(at, name.id)
+        if len(defs) != 1 or defs[0].kind != "assign" or defs[0].value is None or defs[0].node is None:
+            return None
+        v = defs[0].value
+        if not isinstance(v, (ast.BoolOp, ast.Compare, ast.Call, ast.UnaryOp, ast.Name)):
+            return None
+        for x in ast.walk(v):
+            if isinstance(x, ast.Name) and isinstance(x.ctx, ast.Load):
+                a = {id(d) for d in rd.reaching(defs[0].node, x.id)}
+                b = {id(d) for d in rd.reaching(at, x.id)}
+                if a != b:
+                    return None
+        return v, defs[0].node
+
+    def add(e, truth, t, depth=0):
+        if depth > 6:
+            out.append((e, truth, t))
+            return
+        if isinstance(e, ast.UnaryOp) and isinstance(e.op, ast.Not):
+            return add(e.operand, not truth, t, depth + 1)
+        if isinstance(e, ast.BoolOp) and ((isinstance(e.op, ast.And) and truth) or (isinstance(e.op, ast.Or) and not truth)):
+            for v in e.values:
+                add(v, truth, t, depth + 1)
+            return
+        if isinstance(e, ast.Call) and isinstance(e.func, ast.Name) and e.func.id == "bool" and len(e.args) == 1:
+            return add(e.args[0], truth, t, depth + 1)
+        out.append((e, truth, t))
+        if isinstance(e, ast.Name):
+            fd = flag_def(e, t)
+            if fd is not None:
+                add(fd[0], truth, t, depth + 1)
+    for t, tr in dominating_guards(an, fn, target, avoid):
+        add(t.ast, tr, t)
+    return out
